@@ -1,10 +1,13 @@
 """C10 — generated functions honour the C calling convention (structural part).
 
-  D1 push/pop pairing between orc_x86_emit_prologue and _epilogue
+  D1 push/pop pairing between orc_x86_emit_prologue and _epilogue; push/pop encode all four
+   bits of the register number (REX.B), so r12..r15 are the registers actually saved
   D2 callee-saved table (SysV AMD64 / i386) and non-allocatable registers
   D3 MXCSR slot dataflow: abstract interpretation of the emission sequences of
      set_mxcsr / restore_mxcsr (which slot holds the caller's value)
-  D4 skeleton pairing: set => restore before the epilogue; emms on every path;
+  D5 branches emitted by orc_x86_compile never jump across save_registers / set_mxcsr /
+   restore_mxcsr / restore_registers
+D4 skeleton pairing: set => restore before the epilogue; emms on every path;
      vzeroupper before ret for AVX; symmetric stack adjustment of the vector save area
 """
 from facts import AnalysisBroken, access_path, strip_casts, unparse
@@ -203,6 +206,52 @@ def run(ctx):
     wit = _path_avoiding(xc, None, {e.id for e in emms}, {e.id for e in epis})
     rep.check(wit is None, "D4-SKELETON", where(xc), "emms-before-epilogue", "clear_emms is called on every path to the epilogue",
               "the epilogue of orc_x86_compile is reachable without clear_emms")
+    # ---- D1b: the pushes and pops really name the register they print ----------------------
+    from x86enc import check_rex_coverage
+    check_rex_coverage(db, rep, "D1-PUSH-ENCODING", only={"STACK"})
+
+    # ---- D5: emitted branches do not cross a save/restore boundary ------------------------
+    # orc_x86_compile emits its program in C-control-flow order.  A branch emitted BEFORE one of the paired
+    # events (save_registers, set_mxcsr, restore_mxcsr, restore_registers) whose label is emitted AFTER it
+    # (or the reverse) makes the generated code skip that half of the pair while still running the other half.
+    def order(a, b):
+        """'before' if a is emitted before b on every C path that emits both, 'after', or None (unordered)."""
+        pa, pb = xc.pos(a), xc.pos(b)
+        if pa is None or pb is None:
+            return None
+        if pa[0] == pb[0]:
+            return "before" if pa[1] < pb[1] else "after"
+        ab = pb[0] in xc.reachable_blocks(pa[0])
+        ba = pa[0] in xc.reachable_blocks(pb[0])
+        if ab and not ba:
+            return "before"
+        if ba and not ab:
+            return "after"
+        return None
+    events = []
+    for nm in ("orc_x86_save_registers", "orc_x86_set_mxcsr", "orc_x86_restore_mxcsr", "orc_x86_restore_registers"):
+        for c in xc.calls(nm):
+            events.append((nm, c))
+    branches = [(c, unparse(c.args()[2])) for c in xc.calls("orc_x86_emit_cpuinsn_branch")]
+    labels = {}
+    for c in xc.calls("orc_x86_emit_cpuinsn_label"):
+        labels.setdefault(unparse(c.args()[2]), []).append(c)
+    if len(branches) < 5 or len(labels) < 5 or len(events) < 4:
+        raise AnalysisBroken("orc_x86_compile: %d branches, %d labels, %d paired events found" % (len(branches), len(labels), len(events)))
+    for j, lab in branches:
+        tg = labels.get(lab)
+        if not tg:
+            continue            # label emitted by a helper (e.g. the inner loop emitter): not judged here
+        bad = []
+        for l in tg:
+            for nm, e in events:
+                oj, ol = order(j, e), order(l, e)
+                if oj and ol and oj != ol:
+                    bad.append("%s (branch emitted %s it, label %s it)" % (nm.replace("orc_x86_", ""), oj, ol))
+        rep.check(not bad, "D5-EMITTED-BRANCH", where(xc), "branch->%s" % lab,
+                  "branch and its label lie on the same side of every save/restore event",
+                  "the generated branch to %s crosses %s: the generated code skips one half of the pair and still runs the other "
+                  "(e.g. ldmxcsr from a slot that was never written, or an unbalanced stack adjustment)" % (lab, "; ".join(sorted(set(bad)))), line=j.line)
     # MMX target provides clear_emms and it emits emms
     slot = None
     for t in db.tus.values():
